@@ -580,6 +580,20 @@ def _fold_stmt_at(fn, var, pos_from_end, nth=0):
     return _fold_stmt(fn, var, nth)
 
 
+def _crop_slice(fn, var, nth=0):
+    """v = v[..., a:b]  (both bounds given, on the LAST subscript written)  ->  (a, b)"""
+    k = 0
+    for st in _walk_stmts(fn.body):
+        if (isinstance(st, ast.Assign) and len(st.targets) == 1 and isinstance(st.targets[0], ast.Name) and st.targets[0].id == var
+                and isinstance(st.value, ast.Subscript) and ast.unparse(st.value.value) == var):
+            sl = st.value.slice.elts[-1] if isinstance(st.value.slice, ast.Tuple) else st.value.slice
+            if isinstance(sl, ast.Slice) and sl.lower is not None and sl.upper is not None and sl.step is None:
+                if k == nth:
+                    return sl.lower, sl.upper, (len(st.value.slice.elts) if isinstance(st.value.slice, ast.Tuple) else 1)
+                k += 1
+    raise TranslateError('crop a:b #%d of %s not found in %s' % (nth, var, fn.name))
+
+
 def _tuple_elt(e, idx):
     if not isinstance(e, ast.Tuple):
         raise TranslateError('expected a tuple, got %s' % ast.unparse(e))
@@ -701,11 +715,27 @@ def gen_sizes():
     pada = _assign_value(fn, 'pad', 0)
     d('atrous_before_H', ['L2', 'dilation'], t.expr(_ifexp_tuple(pada, 'body', 2))); d('atrous_after_H', ['L2', 'dilation'], t.expr(_ifexp_tuple(pada, 'body', 3)))
     d('atrous_before_W', ['L2', 'dilation'], t.expr(_ifexp_tuple(pada, 'orelse', 0))); d('atrous_after_W', ['L2', 'dilation'], t.expr(_ifexp_tuple(pada, 'orelse', 1)))
+    # --- DTCWTInverse.forward: when the low-pass is cropped to twice the band-pass size, and by how much; ScatLayer(j2).forward
+    fi = _find_method(os.path.join(rt.REPO, 'pytorch_wavelets', 'dtcwt', 'transform2d.py'), 'DTCWTInverse', 'forward')
+    t = SizeTranslator(fi, {})
+    for nth, tag in ((0, 'loop'), (1, 'last')):
+        d('dtcwt_inv_rows_differ_' + tag, ['r', 'r1'], t.expr(_if_test(fi, 'r != r1', nth)), prop=True)
+        d('dtcwt_inv_cols_differ_' + tag, ['c', 'c1'], t.expr(_if_test(fi, 'c != c1', nth)), prop=True)
+    for nth, tag in ((0, 'rows_loop'), (1, 'cols_loop'), (2, 'rows_last'), (3, 'cols_last')):
+        lo_, hi_, pos = _crop_slice(fi, 'low', nth)
+        d('dtcwt_inv_crop_from_' + tag, [], t.expr(lo_)); d('dtcwt_inv_crop_to_' + tag, [], t.expr(hi_))
+        d('dtcwt_inv_crop_axis_' + tag, [], '(%d : Int)' % (pos - 1))
+    f1 = _find_method(os.path.join(rt.REPO, 'pytorch_wavelets', 'scatternet', 'layers.py'), 'ScatLayer', 'forward')
+    t = SizeTranslator(f1, {})
+    d('scat1_rows_odd', ['r'], t.expr(_if_test(f1, 'r % 2')), prop=True); d('scat1_cols_odd', ['c'], t.expr(_if_test(f1, 'c % 2')), prop=True)
+    d('scat1_channels', ['c'], t.expr(_call_arg(f1, 'Z.view', 1)))
+    t = SizeTranslator(fj, {})
+    d('scatj2_channels', ['c'], t.expr(_call_arg(fj, 'Z.view', 1)))
     out.append('\nend WV.Gen.Sizes\n')
     return _write(os.path.join(GEN, 'Sizes.lean'), '\n'.join(out))
 
 
-SIZE_PROPS = {'C01', 'C10', 'C08', 'C03', 'C19', 'C13'}     # the properties whose theorem lists include the size-arithmetic tie (C01Z)
+SIZE_PROPS = {'C01', 'C10', 'C08', 'C03', 'C19', 'C13', 'C04', 'C11'}     # the properties whose theorem lists include the size-arithmetic tie (C01Z)
 
 PAD_PROPS = {'C01', 'C03', 'C04', 'C11'}      # the properties whose theorem lists include the padding-helper tie (C03T)
 
